@@ -41,6 +41,34 @@ pub fn par_map<R: Send>(n: usize, f: impl Fn(usize) -> R + Sync) -> Vec<R> {
         .collect()
 }
 
+/// Like `par_map`, on worker threads with a large stack (deeply nested subjects: the repository's
+/// parser, `Clone`, `Drop` and `==` of programs are recursive).
+pub fn par_map_big<R: Send>(n: usize, stack_bytes: usize, f: impl Fn(usize) -> R + Sync) -> Vec<R> {
+    let next = AtomicUsize::new(0);
+    let out: Mutex<Vec<Option<R>>> = Mutex::new((0..n).map(|_| None).collect());
+    let t = threads().min(n.max(1));
+    std::thread::scope(|s| {
+        for _ in 0..t {
+            std::thread::Builder::new()
+                .stack_size(stack_bytes)
+                .spawn_scoped(s, || loop {
+                    let i = next.fetch_add(1, Ordering::Relaxed);
+                    if i >= n {
+                        break;
+                    }
+                    let r = f(i);
+                    out.lock().unwrap()[i] = Some(r);
+                })
+                .expect("spawn worker with a large stack");
+        }
+    });
+    out.into_inner()
+        .unwrap()
+        .into_iter()
+        .map(|o| o.expect("shard did not finish"))
+        .collect()
+}
+
 thread_local! {
     static LAST_PANIC: std::cell::RefCell<Option<String>> = const { std::cell::RefCell::new(None) };
 }
